@@ -14,10 +14,17 @@ REQUIRED_BRANCHES = [
     "chain-after", "chain-before",
     # input distribution (harness side)
     "src:idx", "src:stub", "keys:1", "keys:2", "keys:3",
+    # bluge.MultiSearch over 2-3 readers, sort order with a field key, matches outside the first reader
+    "src:multisearch", "multisearch-field-sort",
     "chain:after:fresh:ownsort", "chain:after:fresh:sharedsort", "chain:after:samereq:ownsort",
     "chain:before:fresh:ownsort", "chain:before:fresh:sharedsort", "chain:before:samereq:ownsort",
 ]
 ASSUMPTIONS = [
+    "bluge.MultiSearch = ONE collector over the concatenation of the readers' match streams (reader order, then document "
+    "order), every match carrying the sort value of its own document: validated per reference list (hit numbers of "
+    "AllMatches through MultiSearch are consecutive in that order; reference sort values are read with a search context "
+    "of their own per match and compared with the model's value computed from the document's field), by the "
+    "per-hit check bad:hit-carries-another-sort-value, and by the Gen fact dvReaderKeyedByReader",
     "container/heap Push/Pop implement a priority queue for a Less that is a strict total order "
     "(the heap store is modelled as a bag whose Pop removes the maximum; the array layout is not modelled)",
     "the searcher hands every match to the collector once, and Collect numbers them 1,2,3,... in that order "
